@@ -9,9 +9,11 @@ CONSTANTS
   BugStaleInit <- MCBugStaleInit
   BugRelinkDrop <- MCBugRelinkDrop
   BugNoRepub <- MCBugNoRepub
+  BugStaleChan <- MCBugStaleChan
   WSet <- MCWSet
   Gen = FALSE
 VIEW View
 INVARIANT ViewsConverged
 INVARIANT SessionsComplete
+INVARIANT NoStaleChan
 CHECK_DEADLOCK FALSE
